@@ -451,3 +451,109 @@ Proof.
   split; [vm_compute; reflexivity|]. split; [reflexivity|]. vm_compute. discriminate.
 Qed.
 Print Assumptions C05_responses_saved_exact_refuted.
+
+(* ============================================================================================
+   Part A, continued — arbitrary genesis initial_height (finding F87; C05/ModelIH.v,
+   C05/ProofsIH.v).  Model.v fixes InitialHeight = 1.  [route_ih repaired ih base store state app]
+   transcribes the case analysis of consensus/replay.go ReplayBlocks on the REAL heights with the
+   initial height as a parameter: [repaired = true] with
+   fixes/F87-replay-genesis-state-below-initial-height.diff (the genesis state is compared as
+   standing at ih-1), [false] as the code was.  [handshake_ih] carries the chosen replay out on
+   the persisted cursors [cur] (store base/height, state height, application height, height of
+   the saved responses). *)
+From TM Require Import C05.ModelIH C05.ProofsIH.
+
+(* at initial height 1 the transcription is Model.v's dispatch (repaired or not): the theorems
+   above are about this very case analysis *)
+Theorem C05_ih_route_at_1_is_dispatch : forall (w : world) (app_hash : Z) (repaired : bool),
+  dispatch w app_hash =
+  pc_of_route w app_hash
+    (route_ih repaired 1 (store_base (w_store w)) (store_height (w_store w))
+              (s_height (w_state w)) (a_height (w_app w))).
+Proof. exact dispatch_is_route. Qed.
+Print Assumptions C05_ih_route_at_1_is_dispatch.
+
+(* never_fails + recovery_agrees for EVERY initial height ih >= 1 and EVERY admissible combination
+   of the persisted cursors ([cur_ok]: nothing stored, or blocks ih..store, the state at the store
+   or one block below - the genesis state counts as below ih -, the application at 0 or at a
+   commit in ih..store, the last block's responses saved once the application committed it):
+   the repaired handshake picks a replay that can be carried out (no error, no panic, every block
+   it loads exists, every block it executes follows the application's commit, the block it
+   applies follows the state) and afterwards state = store = application. *)
+Theorem C05_ih_handshake_recovers : forall ih c, cur_ok ih c ->
+  exists c', handshake_ih true ih c = Some c' /\
+             c_store c' = c_store c /\ c_base c' = c_base c /\
+             c_state c' = c_store c /\ c_app c' = c_store c.
+Proof. exact repaired_recovers. Qed.
+Print Assumptions C05_ih_handshake_recovers.
+
+(* in particular at every crash point of the FIRST block (before SaveBlock, block stored,
+   responses saved, application committed, state saved; application as it is or restored to 0):
+   the three heights end at the initial height *)
+Theorem C05_ih_first_block_recovers : forall ih c, 1 <= ih -> In c (first_block_points ih) ->
+  exists c', handshake_ih true ih c = Some c' /\
+             c_state c' = c_store c' /\ c_app c' = c_store c' /\ c_store c' = c_store c /\
+             (c_store c' = ih \/ c_store c = 0).
+Proof. exact first_block_recovers. Qed.
+Print Assumptions C05_ih_first_block_recovers.
+
+(* the repaired analysis at initial height ih is the analysis at initial height 1 - Model.v's -
+   on heights counted from the genesis state's position ih-1 ([relh]; the translation Exec.v
+   applies to the observations of the chains with ih > 1), up to "an empty replayBlocks range
+   followed by replayBlock on the application is replayBlock on the application" ([norm]) *)
+Theorem C05_ih_route_is_relative : forall ih c, cur_ok ih c ->
+  norm (route_ih true ih (c_base c) (c_store c) (c_state c) (c_app c)) =
+  norm (shift_route (ih - 1)
+          (route_ih true 1 (relh ih (c_base c)) (relh ih (c_store c))
+                    (relh ih (c_state c)) (relh ih (c_app c)))).
+Proof. exact route_relative. Qed.
+Print Assumptions C05_ih_route_is_relative.
+
+(* the repair changes nothing for chains that start at 1 and nothing once a block was applied *)
+Theorem C05_ih_repair_inert : forall ih bs sr st ap, ih = 1 \/ st <> 0 ->
+  route_ih true ih bs sr st ap = route_ih false ih bs sr st ap.
+Proof. exact repair_inert. Qed.
+Print Assumptions C05_ih_repair_inert.
+
+(* F87, the code as it was: for EVERY initial height > 1, once the first block is stored while
+   the state is still the genesis state (any crash between SaveBlock and the state Save of the
+   first block, application at 0 or already at ih), every restart ends in the panic
+   "StoreBlockHeight > StateBlockHeight + 1" *)
+Theorem C05_ih_unrepaired_bricks : forall ih c, 1 < ih ->
+  c_store c = ih -> c_base c = ih -> c_state c = 0 -> (c_app c = 0 \/ c_app c = ih) ->
+  route_ih false ih (c_base c) (c_store c) (c_state c) (c_app c) = RFail F_store_gt_state1 /\
+  handshake_ih false ih c = None.
+Proof. exact unrepaired_bricks. Qed.
+Print Assumptions C05_ih_unrepaired_bricks.
+
+Example C05_ih_nonvacuous :
+  map (handshake_ih true 10) (first_block_points 10) =
+  [ Some {| c_base := 0;  c_store := 0;  c_state := 0;  c_app := 0;  c_resp := 0 |};
+    Some {| c_base := 10; c_store := 10; c_state := 10; c_app := 10; c_resp := 10 |};
+    Some {| c_base := 10; c_store := 10; c_state := 10; c_app := 10; c_resp := 10 |};
+    Some {| c_base := 10; c_store := 10; c_state := 10; c_app := 10; c_resp := 10 |};
+    Some {| c_base := 10; c_store := 10; c_state := 10; c_app := 10; c_resp := 10 |};
+    Some {| c_base := 10; c_store := 10; c_state := 10; c_app := 10; c_resp := 10 |} ] /\
+  map (fun c => route_ih true 10 (c_base c) (c_store c) (c_state c) (c_app c)) (first_block_points 10) =
+  [ RDone; RLoop 10 9 true; RLoop 10 9 true; RMock; RDone; RLoop 10 10 false ] /\
+  (* later heights, huge initial height: store 2^40+1, state 2^40, application restored to 0 *)
+  handshake_ih true (2 ^ 40)
+    {| c_base := 2 ^ 40; c_store := 2 ^ 40 + 1; c_state := 2 ^ 40; c_app := 0; c_resp := 2 ^ 40 |} =
+  Some {| c_base := 2 ^ 40; c_store := 2 ^ 40 + 1; c_state := 2 ^ 40 + 1; c_app := 2 ^ 40 + 1;
+          c_resp := 2 ^ 40 + 1 |}.
+Proof. vm_compute. auto. Qed.
+
+(* the regression witness: initial height 10, crash right after SaveBlock(10) *)
+Example C05_ih_unrepaired_refuted :
+  let c := {| c_base := 10; c_store := 10; c_state := 0; c_app := 0; c_resp := 0 |} in
+  In c (first_block_points 10) /\
+  route_ih false 10 (c_base c) (c_store c) (c_state c) (c_app c) = RFail F_store_gt_state1 /\
+  handshake_ih false 10 c = None /\
+  map (handshake_ih false 10) (first_block_points 10) =
+  [ Some {| c_base := 0; c_store := 0; c_state := 0; c_app := 0; c_resp := 0 |};
+    None; None; None;
+    Some {| c_base := 10; c_store := 10; c_state := 10; c_app := 10; c_resp := 10 |};
+    Some {| c_base := 10; c_store := 10; c_state := 10; c_app := 10; c_resp := 10 |} ] /\
+  (* initial height 1: both transcriptions recover *)
+  map (handshake_ih false 1) (first_block_points 1) = map (handshake_ih true 1) (first_block_points 1).
+Proof. cbv zeta. split; [right; left; reflexivity|]. vm_compute. auto. Qed.
